@@ -1,22 +1,25 @@
 (** C01 — Strapdown integration converges to the true navigation solution.
 
-    Statements are about the definitions GENERATED from /repo (Gen/NumbaIntegrate.v:
-    step3d_<out> = one iteration of the loop of _numba_integrate.integrate, with_altitude = True)
+    Statements are about the definitions GENERATED from /repo:
+      Gen/NumbaIntegrate.v  step3d_<out> = one iteration of the loop of _numba_integrate.integrate
+                            (with_altitude = True), mat_from_rotvec_mij, nb_gravity_g;
+      Gen/C01Gen.v          inc_rate_<out>, inc_incr_<out> = one row of
+                            strapdown.compute_increments_from_imu for the two sensor types,
     against the hand-written hub specification Spec/NavODE.v (nav_rhs_<out>).
 
     Proved:    step_zero, step_consistent (15 components), increments_consistent (both sensor
-               types, on the hand transcription h_rate_* / h_incr_* of compute_increments_from_imu),
-               the abstract one-step convergence theorem and the halving lemma.
+               types, hand transcription and generated formulas), the abstract one-step
+               convergence theorem (discrete Gronwall), the halving lemma, the vanishing bound.
     PARTIAL:   strapdown_converges_partial / strapdown_converges_limit_partial state the end-to-end
                convergence of the generated kernel WITH the two uniformity hypotheses (stability
                constant L on a region D, local-error constant C along the exact solution) as
                visible premises: these constants are NOT proved for the concrete kernel.
                Full statement that is not proved: for every smooth signal pair and initial state in
-               the property's domain there exist L, C such that the premises hold (and hence
-               err(h) <= C h (e^{LT}-1)/L). *)
+               the property's domain there exist D, L, C such that the premises hold (and hence
+               err(h) <= C h (e^{LT}-1)/L -> 0). *)
 From Coq Require Import Reals.
 From Coquelicot Require Import Coquelicot.
-From PV Require Import Base.RealTac Spec.Ellipsoid Spec.NavODE Gen.NumbaIntegrate Model.KernelHand.
+From PV Require Import Base.RealTac Spec.Ellipsoid Spec.NavODE Gen.NumbaIntegrate Gen.C01Gen Model.KernelHand.
 From PV Require Import Proofs.C01Proofs.
 Open Scope R_scope.
 
@@ -111,8 +114,50 @@ Theorem C01_step_consistent_attitude :
 Proof. exact step_consistent_attitude. Qed.
 Print Assumptions C01_step_consistent_attitude.
 
-(** rate-type sensor: the increments computed from the samples w(0), w(dt), f(0), f(dt) satisfy the premises
-    of step_consistent with w = w(0), f = f(0) *)
+(** rate-type sensor (generated formulas): the increments computed from the samples w(t0), w(t0+dt), f(t0), f(t0+dt)
+    satisfy the premises of step_consistent with w = w(t0), f = f(t0); the dt column is the index difference *)
+Theorem C01_increments_consistent_rate_gen :
+  forall (w0 w1 w2 f0 f1 f2 : R -> R) (t0 : R),
+  ex_derive w0 t0 -> ex_derive w1 t0 -> ex_derive w2 t0 ->
+  ex_derive f0 t0 -> ex_derive f1 t0 -> ex_derive f2 t0 ->
+  let row := fun (out : R -> R -> R -> R -> R -> R -> R -> R -> R -> R -> R -> R -> R -> R -> R) (dt : R) =>
+    out dt (w0 t0) (w1 t0) (w2 t0) (w0 (t0 + dt)) (w1 (t0 + dt)) (w2 (t0 + dt))
+           (f0 t0) (f1 t0) (f2 t0) (f0 (t0 + dt)) (f1 (t0 + dt)) (f2 (t0 + dt)) t0 in
+  (forall dt, row inc_rate_odt dt = dt) /\
+  (row inc_rate_th0 0 = 0 /\ row inc_rate_th1 0 = 0 /\ row inc_rate_th2 0 = 0 /\
+   row inc_rate_dv0 0 = 0 /\ row inc_rate_dv1 0 = 0 /\ row inc_rate_dv2 0 = 0) /\
+  (is_derive (row inc_rate_th0) 0 (w0 t0) /\ is_derive (row inc_rate_th1) 0 (w1 t0) /\
+   is_derive (row inc_rate_th2) 0 (w2 t0)) /\
+  (is_derive (row inc_rate_dv0) 0 (f0 t0) /\ is_derive (row inc_rate_dv1) 0 (f1 t0) /\
+   is_derive (row inc_rate_dv2) 0 (f2 t0)).
+Proof. exact increments_consistent_rate_gen. Qed.
+Print Assumptions C01_increments_consistent_rate_gen.
+
+Example C01_increments_rate_hyps_example :
+  let w := fun t : R => 1 + 2 * t in ex_derive w 0.
+Proof. exact increments_rate_hyps_example. Qed.
+
+(** increment-type sensor (generated formulas): samples are integrals over the previous and the current interval *)
+Theorem C01_increments_consistent_increment_gen :
+  forall (G0 G1 G2 F0 F1 F2 : R -> R) (w0 w1 w2 f0 f1 f2 t0 : R),
+  is_derive G0 0 w0 -> is_derive G1 0 w1 -> is_derive G2 0 w2 ->
+  is_derive F0 0 f0 -> is_derive F1 0 f1 -> is_derive F2 0 f2 ->
+  let row := fun (out : R -> R -> R -> R -> R -> R -> R -> R -> R -> R -> R -> R -> R -> R -> R) (dt : R) =>
+    out dt (h_prv G0 dt) (h_prv G1 dt) (h_prv G2 dt) (h_cur G0 dt) (h_cur G1 dt) (h_cur G2 dt)
+           (h_prv F0 dt) (h_prv F1 dt) (h_prv F2 dt) (h_cur F0 dt) (h_cur F1 dt) (h_cur F2 dt) t0 in
+  (forall dt, row inc_incr_odt dt = dt) /\
+  (row inc_incr_th0 0 = 0 /\ row inc_incr_th1 0 = 0 /\ row inc_incr_th2 0 = 0 /\
+   row inc_incr_dv0 0 = 0 /\ row inc_incr_dv1 0 = 0 /\ row inc_incr_dv2 0 = 0) /\
+  (is_derive (row inc_incr_th0) 0 w0 /\ is_derive (row inc_incr_th1) 0 w1 /\ is_derive (row inc_incr_th2) 0 w2) /\
+  (is_derive (row inc_incr_dv0) 0 f0 /\ is_derive (row inc_incr_dv1) 0 f1 /\ is_derive (row inc_incr_dv2) 0 f2).
+Proof. exact increments_consistent_increment_gen. Qed.
+Print Assumptions C01_increments_consistent_increment_gen.
+
+Example C01_increments_increment_hyps_example :
+  let G := fun t : R => t + t * t in is_derive G 0 1.
+Proof. exact increments_increment_hyps_example. Qed.
+
+(** the same two statements on the hand transcription h_rate_* / h_incr_* (Model/KernelHand.v) *)
 Theorem C01_increments_consistent_rate :
   forall (w0 w1 w2 f0 f1 f2 : R -> R),
   ex_derive w0 0 -> ex_derive w1 0 -> ex_derive w2 0 ->
@@ -129,11 +174,6 @@ Theorem C01_increments_consistent_rate :
 Proof. exact increments_consistent_rate. Qed.
 Print Assumptions C01_increments_consistent_rate.
 
-Example C01_increments_rate_hyps_example :
-  let w := fun t : R => 1 + 2 * t in ex_derive w 0.
-Proof. exact increments_rate_hyps_example. Qed.
-
-(** increment-type sensor: samples are integrals over the previous and the current interval *)
 Theorem C01_increments_consistent_increment :
   forall (G0 G1 G2 F0 F1 F2 : R -> R) (w0 w1 w2 f0 f1 f2 : R),
   is_derive G0 0 w0 -> is_derive G1 0 w1 -> is_derive G2 0 w2 ->
@@ -154,10 +194,6 @@ Theorem C01_increments_consistent_increment :
   (is_derive dv0 0 f0 /\ is_derive dv1 0 f1 /\ is_derive dv2 0 f2).
 Proof. exact increments_consistent_increment. Qed.
 Print Assumptions C01_increments_consistent_increment.
-
-Example C01_increments_increment_hyps_example :
-  let G := fun t : R => t + t * t in is_derive G 0 1.
-Proof. exact increments_increment_hyps_example. Qed.
 
 (** abstract convergence of one-step methods (discrete Gronwall) *)
 Theorem C01_one_step_convergence :
